@@ -953,6 +953,9 @@ func (c *Ctx) checkMaxZeroBeforeLoop(info *types.Info, fd *ast.FuncDecl) {
 	c.Check(ok, maxZeroRule, key, fd.Body.List[loopIdx].Pos(), "%s stores max=0 (unbounded) before its wait loop; otherwise a writer over the limit and this reader wait on each other forever", fd.Name.Name)
 }
 
+// backPressureRule: rule id under which checkBackPressure records (C03 reuses it: "always finishes").
+var backPressureRule = "R01e"
+
 func (c *Ctx) checkBackPressure(info *types.Info, fd *ast.FuncDecl) {
 	defs := localDefs(info, fd.Body)
 	var loop *ast.ForStmt
@@ -963,7 +966,7 @@ func (c *Ctx) checkBackPressure(info *types.Info, fd *ast.FuncDecl) {
 		}
 	}
 	if loop == nil {
-		c.Undecided("R01e", "Write:backpressure", fd.Pos(), "no wait loop in Write")
+		c.Undecided(backPressureRule, "Write:backpressure", fd.Pos(), "no wait loop in Write")
 		return
 	}
 	// the exit: `if cond { break }` at the loop body's top level, or loop.Cond
@@ -984,7 +987,7 @@ func (c *Ctx) checkBackPressure(info *types.Info, fd *ast.FuncDecl) {
 		}
 	}
 	if cond == nil {
-		c.Undecided("R01e", "Write:backpressure", loop.Pos(), "exit condition of the back-pressure loop not recognised (forms: `for cond {`, `if cond { break }`)")
+		c.Undecided(backPressureRule, "Write:backpressure", loop.Pos(), "exit condition of the back-pressure loop not recognised (forms: `for cond {`, `if cond { break }`)")
 		return
 	}
 	// atoms over resolved operands: LT = len(buffer) < max ; Z = max == 0
@@ -1072,10 +1075,10 @@ func (c *Ctx) checkBackPressure(info *types.Info, fd *ast.FuncDecl) {
 		}
 	}
 	if undec != "" {
-		c.Undecided("R01e", "Write:backpressure", cond.Pos(), "leaf %q of the exit condition is not an integer comparison over len(buffer), max and constants", undec)
+		c.Undecided(backPressureRule, "Write:backpressure", cond.Pos(), "leaf %q of the exit condition is not an integer comparison over len(buffer), max and constants", undec)
 		return
 	}
-	c.Check(bad == "", "R01e", "Write:backpressure", cond.Pos(), "exit condition %s holds whenever len(buffer)<max or max==0 (checked on all len(buffer),max in 0..3 and len(p) in 1..4) %s", c.src(cond), bad)
+	c.Check(bad == "", backPressureRule, "Write:backpressure", cond.Pos(), "exit condition %s holds whenever len(buffer)<max or max==0 (checked on all len(buffer),max in 0..3 and len(p) in 1..4) %s", c.src(cond), bad)
 }
 
 func (c *Ctx) checkWriteTo(info *types.Info, fd *ast.FuncDecl) {
